@@ -46,7 +46,7 @@ Record xnode := mkNode {
 Record xbond := mkXBond { xb_B : string; xb_E : string; xb_order : xorder; xb_disp : display }.
 
 (* ------------------------------------------------------------------ what the parser builds *)
-Inductive atype := ATRegular | ATAttachment | ATCoord.
+Inductive atype := ATRegular | ATAttachment | ATCoord | ATOther.
 Record atom := mkAtom {
   a_elem : Z;                 (* atomic number, 0 = Element.Unknown *)
   a_iso : option Z;
@@ -315,7 +315,7 @@ Fixpoint expand (f : xfrag) : res mol :=
 Definition opt_eqb {A} (e : A -> A -> bool) (x y : option A) : bool :=
   match x, y with Some a, Some b => e a b | None, None => true | _, _ => false end.
 Definition atype_eqb (x y : atype) : bool :=
-  match x, y with ATRegular, ATRegular | ATAttachment, ATAttachment | ATCoord, ATCoord => true | _, _ => false end.
+  match x, y with ATRegular, ATRegular | ATAttachment, ATAttachment | ATCoord, ATCoord | ATOther, ATOther => true | _, _ => false end.
 Definition atom_eqb (x y : atom) : bool :=
   Z.eqb (a_elem x) (a_elem y) && opt_eqb Z.eqb (a_iso x) (a_iso y) && opt_eqb String.eqb (a_label x) (a_label y)
   && atype_eqb (a_atype x) (a_atype y) && Z.eqb (a_charge x) (a_charge y) && Z.eqb (a_spin x) (a_spin y)
